@@ -121,7 +121,7 @@ fn main() {
             }
             let distinct = rec.distinct();
             println!("{}", serde_json::json!({"lines": rec.finish(), "wraps": st.wraps, "unwraps": st.unwraps, "pke_seals": st.pke_seals,
-                "rsa_c_leading_zero": st.rsa_c_leading_zero, "skipped_over_budget": st.skipped_over_budget, "distinct_byte_strings": distinct}));
+                "rsa_c_leading_zero": st.rsa_c_leading_zero, "skipped_over_budget": st.skipped_over_budget, "zero_work_factor_blobs": st.zero_work_factor_blobs, "distinct_byte_strings": distinct}));
         }
         "tokens" => {
             let mut rec = Recorder::create(&out);
